@@ -113,10 +113,16 @@ class C14(runner.Check):
 
     def shards(self, tier):
         alpha = self.alphabet(tier)
-        return [(tier, i, j) for i in range(len(alpha)) for j in range(len(alpha))]
+        return [(tier, i, j) for i in range(len(alpha)) for j in range(len(alpha))] + [(tier, "l3", k) for k in range(4)]
 
     def run_shard(self, shard):
         tier, i, j = shard
+        if i == "l3":
+            st = Stats()
+            self._no = 0
+            self._l3(st, tier, j)
+            pool.unmark()
+            return st.pack()
         alpha = self.alphabet(tier)
         depth = self.depth(tier)
         st = Stats()
@@ -255,7 +261,65 @@ class C14(runner.Check):
                      {"history": [list(map(_js, c)) for c in hist], "growth": list(growth)},
                      failure=failure, last=hist[-1][0], depth=len(hist))
 
+    # ---- tier L3: ak.from_iter and the high-level ak.ArrayBuilder
+    def _l3(self, st, tier, k):
+        import itertools
+        import install
+        ak = install.install()
+        import warnings
+        warnings.filterwarnings("ignore")
+        atoms = [None, True, 0, -3, 2 ** 63 - 1, 1.5, float("nan"), "", "é\x00z", b"by", [], [1], [1.5, None], (1, "a"), (2.5, [1]),
+                 {"x": 1}, {"x": 2.5, "y": [1]}, {"y": None}, {}, [[], [1]], [{"x": 1}], np.int32(5), np.float32(0.5), np.bool_(True)]
+        n = 0
+        for size in (0, 1, 2, 3):
+            for combo in itertools.product(range(len(atoms)), repeat=size):
+                n += 1
+                if n % 4 != k:
+                    continue
+                if size == 3 and tier == "quick" and (combo[0] * 7 + combo[1] * 3 + combo[2]) % 5 != 0:
+                    continue      # quick: every triple whose index combination is 0 mod 5 (all pairs and singles are complete)
+                data = [atoms[c] for c in combo]
+                self._no += 1
+                pool.mark(self._no)
+                st.states += 1
+                st.transitions += 1
+                st.evaluations += 1
+                m = refbuilder.RefBuilder()
+                try:
+                    for v in data:
+                        for c in iter_commands(v):
+                            m.apply(c)
+                    want = m.snapshot()
+                except refbuilder.BuilderError:
+                    continue
+                case = {"mode": "l3", "data": repr(data)}
+                try:
+                    arr = ak.from_iter(data)
+                    got = _plain(ak.to_list(arr))
+                    # the same through the high-level builder
+                    b = ak.ArrayBuilder()
+                    for v in data:
+                        hl_append(b, v)
+                    got2 = _plain(ak.to_list(b.snapshot()))
+                    t1, t2 = str(ak.type(arr)), str(ak.type(b.snapshot()))
+                except ERRS + (AttributeError, KeyError) as err:
+                    st.violation("l3-raised", "ak.from_iter(%r): %s: %s" % (data, type(err).__name__, str(err)[:200]), case,
+                                 failure="l3-raised", l3=True)
+                    continue
+                if not layoutsem.same(got, want):
+                    st.violation("l3-value", "ak.from_iter(%r) reads %r, appended values are %r" % (data, got, want), case,
+                                 failure="l3-value", l3=True)
+                elif not layoutsem.same(got2, want) or t1 != t2:
+                    st.violation("l3-builder", "ak.ArrayBuilder fed %r reads %r (%s), from_iter %r (%s)" % (data, got2, t2, got, t1), case,
+                                 failure="l3-builder", l3=True)
+                else:
+                    st.outcome("l3:from_iter-ok")
+                    if data:
+                        st.nontrivial += 1
+
     def replay(self, case):
+        if case.get("mode") == "l3":
+            return True, "ak.from_iter(%s): re-run the l3 shards (./check C14) to reproduce; the case is the literal input" % case["data"]
         hist = [tuple(_unjs(x) for x in c) for c in case["history"]]
         initial, resize = case["growth"]
         b = mbuilder.ArrayBuilder(initial, resize)
@@ -287,6 +351,86 @@ class C14(runner.Check):
             if not layoutsem.same(now, val):
                 text.append("snapshot taken after command %d was %r and now reads %r" % (k, val, now))
         return True, "\n".join(text)
+
+
+def iter_commands(v):
+    """commands that from_iter issues for one Python value (port of builder_fromiter, src/python/content.cpp)"""
+    if v is None:
+        yield ("null",)
+    elif isinstance(v, (bool, np.bool_)):
+        yield ("boolean", bool(v))
+    elif isinstance(v, (int, np.integer)):
+        yield ("integer", int(v))
+    elif isinstance(v, (float, np.floating)):
+        yield ("real", float(v))
+    elif isinstance(v, bytes):
+        yield ("bytestring", v)
+    elif isinstance(v, str):
+        yield ("string", v)
+    elif isinstance(v, tuple):
+        yield ("begintuple", len(v))
+        for i, x in enumerate(v):
+            yield ("index", i)
+            for c in iter_commands(x):
+                yield c
+        yield ("endtuple",)
+    elif isinstance(v, dict):
+        yield ("beginrecord",)
+        for key, x in v.items():
+            yield ("field", key)
+            for c in iter_commands(x):
+                yield c
+        yield ("endrecord",)
+    elif isinstance(v, list):
+        yield ("beginlist",)
+        for x in v:
+            for c in iter_commands(x):
+                yield c
+        yield ("endlist",)
+    else:
+        raise TypeError(type(v))
+
+
+def hl_append(b, v):
+    """the same value through the methods of the high-level ak.ArrayBuilder"""
+    if v is None:
+        b.null()
+    elif isinstance(v, (bool, np.bool_)):
+        b.boolean(bool(v))
+    elif isinstance(v, (int, np.integer)):
+        b.integer(int(v))
+    elif isinstance(v, (float, np.floating)):
+        b.real(float(v))
+    elif isinstance(v, bytes):
+        b.bytestring(v)
+    elif isinstance(v, str):
+        b.string(v)
+    elif isinstance(v, tuple):
+        with b.tuple(len(v)):
+            for i, x in enumerate(v):
+                b.index(i)
+                hl_append(b, x)
+    elif isinstance(v, dict):
+        with b.record():
+            for key, x in v.items():
+                b.field(key)
+                hl_append(b, x)
+    else:
+        with b.list():
+            for x in v:
+                hl_append(b, x)
+
+
+def _plain(v):
+    if isinstance(v, np.generic):
+        return v.item()
+    if isinstance(v, list):
+        return [_plain(x) for x in v]
+    if isinstance(v, tuple):
+        return tuple(_plain(x) for x in v)
+    if isinstance(v, dict):
+        return {k: _plain(x) for k, x in v.items()}
+    return v
 
 
 def _same_mod_pending_fields(got, want):
